@@ -32,7 +32,7 @@ H(n) == CLog2(n + 1) + 1
 LogOps == {"push", "push_increase", "push_decrease", "change_priority", "change_priority_by", "remove",
            "pop", "pop_min", "pop_max", "pop_if", "pop_min_if", "pop_max_if"}
 FreeOps == {"peek", "peek_min", "peek_mut", "peek_min_mut", "get", "get_priority", "get_mut", "len", "is_empty",
-            "clear", "reserve", "reserve_exact", "try_reserve", "try_reserve_exact", "shrink_to_fit", "fill"}
+            "clear", "drain", "reserve", "reserve_exact", "try_reserve", "try_reserve_exact", "shrink_to_fit", "fill"}
 OneOps  == {"peek_max", "peek_max_mut"}
 LinOps  == {"from_vec", "from_iter", "append", "retain", "retain_mut", "iter_mut", "convert", "de", "roundtrip"}
 
